@@ -4,6 +4,13 @@
 RFC_TABLES = "the pinned crate's tables are assumed to be RFC 6330's (no copy of the RFC offline); theorems cross-examine them (primality, monotonicity, field laws)"
 
 PROPS = {
+    "C10": {
+        "thm_modules": ["Rq.Thm.C10"],
+        "engines": [("octet", "release"), ("octet", "debug")],
+        "modelled": ["`unsafe get_unchecked` look-ups as total look-ups plus the index-safety theorem exp_index_safe"],
+        "assumptions": [RFC_TABLES, "OCT_EXP/OCT_LOG/OCTET_MUL/nibble tables are read from the compiled crate by the translator on every run; the correspondence is exhaustive (every row of every operation and table), not sampled"],
+        "explanation": "exhaustive: all 256^2 pairs of mul/div/add, fma for 6 accumulators x all pairs, all 258 alpha exponents, all three derived tables; 256^3 triples for associativity/distributivity are covered by the Field instance (theorem) and replayed directly on the implementation",
+    },
     "C13": {
         "thm_modules": ["Rq.Thm.C13"],
         "engines": [("wire", "release")],
